@@ -336,7 +336,7 @@ impl Default for GenCfg {
     }
 }
 
-const NAME_PARTS: [&str; 8] = ["sys", "phys ics", "a-b", "x/y", "render", "ai", "net io", "z"];
+const NAME_PARTS: [&str; 12] = ["sys", "phys ics", "a-b", "x/y", "render", "ai", "net io", "z", "\u{fc}ber/sync", "\u{7269}\u{7406} step", "\u{e9}-x", "a\u{1f980} b-c/"];
 
 struct Knobs {
     nres: usize,
